@@ -121,6 +121,7 @@ func (x *Exec) verify() {
 			x.params[fv.Name()] = SVal{V: v, T: fv.Type()}
 		}
 	}
+	x.w.addNameAliases(fn, x.params)
 	x.initGhost(entry)
 	x.entry = entry.clone()
 	env := x.specEnv(x.entry, x.entry)
